@@ -449,3 +449,19 @@ def _two_points(qual, increasing):
 
 _two_points("MeshPatt.add_increase", True)
 _two_points("MeshPatt.add_decrease", False)
+
+
+@contract("MeshPatt.non_pointless_boxes", params={"self": "Mesh"}, returns="CellSet", props=("C18",))
+class NonPointlessBoxes:
+    # the cells that have a point of the pattern on one of their four corners
+    def requires(c, self):
+        return c.is_mesh(self)
+
+    def ensures(c, self, result):
+        p = self.pattern
+        n = c.len(p)
+        return c.forall_cell(lambda a, b: c.iff(
+            c.in_set(c.cell(a, b), result),
+            c.exists(0, n, lambda i: c.and_(c.or_(a == i, a == i + 1), c.or_(b == p[i], b == p[i] + 1)))))
+
+    modifies = ()
